@@ -28,6 +28,9 @@ from __future__ import annotations
 import hashlib
 import logging
 import math
+import os
+import signal
+import threading
 import zlib
 
 from . import lib
@@ -38,6 +41,37 @@ E, P, D, F, L = "E", "P", "D", "F", "L"
 
 class HarnessError(Exception):
     pass
+
+
+class OpTimeout(Exception):
+    """A single library operation (or one round of snapshot walking) exceeded the per-operation
+    watchdog.  On the unchanged tree the slowest operation (a give-up normalisation) takes about a
+    second; the watchdog only fires when a defect makes an operation run away (e.g. a child list that
+    grows exponentially after being edited in place).  It is an outcome like any exception and is
+    compared with what the fresh replica does; a violation that involves a timeout is confirmed by a
+    second execution before it is reported (runner.execute)."""
+
+
+OP_DEADLINE_S = float(os.environ.get("VERIF_OP_DEADLINE_S", "30"))
+
+
+def _on_alarm(signum, frame):
+    raise OpTimeout(f"operation exceeded {OP_DEADLINE_S:.0f}s")
+
+
+class deadline:
+    def __enter__(self):
+        self.active = threading.current_thread() is threading.main_thread()
+        if self.active:
+            self.old = signal.signal(signal.SIGALRM, _on_alarm)
+            signal.setitimer(signal.ITIMER_REAL, OP_DEADLINE_S)
+        return self
+
+    def __exit__(self, *exc):
+        if self.active:
+            signal.setitimer(signal.ITIMER_REAL, 0)
+            signal.signal(signal.SIGALRM, self.old)
+        return False
 
 
 # --------------------------------------------------------------------------- outcomes
@@ -137,6 +171,15 @@ def describe(obj, typ, var_names):
     return (repr(obj), otree)
 
 
+def safe_describe(obj, typ, var_names):
+    try:
+        return describe(obj, typ, var_names)
+    except S.WalkerUnavailable:
+        return (repr(obj),)
+    except (S.Cyclic, RecursionError) as e:
+        return ("pathological-structure", type(e).__name__)
+
+
 def _strip_point(r):
     # LocatedDifferential's repr echoes the Point's keyword spelling; keep the expression part only
     i = r.rfind(", Point(")
@@ -162,6 +205,7 @@ def expanded_size(obj, memo=None):
     key = id(obj)
     if key in memo:
         return memo[key]
+    memo[key] = 10 ** 9           # in progress: a cycle counts as "too big"
     try:
         kids = S.children_of(obj)
     except AttributeError:
@@ -188,6 +232,7 @@ def pow_chain(obj, memo=None):
     key = id(obj)
     if key in memo:
         return memo[key]
+    memo[key] = POW_CHAIN_CAP + 1  # in progress: a cycle counts as "too big"
     best = 1
     try:
         for k in S.children_of(obj):
@@ -292,6 +337,16 @@ def apply_op(step, get, point_of):
     ops = [get(n) for n in _operands(step)]
     pt = point_of(step["p"]) if "p" in step else None
     try:
+        with deadline():
+            return _call(step, k, ops, pt)
+    except HarnessError:
+        raise
+    except Exception as e:      # noqa: BLE001 - every library exception is an outcome
+        return _exc_outcome(e), None
+
+
+def _call(step, k, ops, pt):
+    if True:
         if k == "at":
             return ("num", ops[0].at(step["num"] if "num" in step else pt)), None
         if k == "dat":
@@ -328,10 +383,6 @@ def apply_op(step, get, point_of):
             return ("str", _strip_point(repr(ops[0]))), None
         if k == "hash":
             return ("num", hash(ops[0])), None
-    except HarnessError:
-        raise
-    except Exception as e:      # noqa: BLE001 - every library exception is an outcome
-        return _exc_outcome(e), None
     raise HarnessError(f"unknown step kind {k}")
 
 
@@ -606,6 +657,20 @@ class Run:
     def _snapshot_check_all(self, step):
         """After every operation: every pooled object still equals / prints as its former self."""
         w = self.world
+        try:
+            with deadline():
+                return self._snapshot_check_all_inner(step)
+        except OpTimeout as e:
+            return self._viol("C10", "structure-became-unwalkable", step,
+                              f"walking / printing the pooled objects no longer finishes: OpTimeout: {e}")
+        except MemoryError as e:
+            return self._viol("C10", "structure-became-unwalkable", step, "MemoryError while printing pooled objects")
+        except (S.Cyclic, RecursionError) as e:
+            return self._viol("C10", "structure-became-cyclic", step,
+                              f"a pooled object can no longer be walked / printed: {type(e).__name__}: {e}")
+
+    def _snapshot_check_all_inner(self, step):
+        w = self.world
         for name, snap in self.snap.items():
             obj = w.objs[name]
             typ = snap["type"]
@@ -641,6 +706,14 @@ class Run:
 
     def _twin_equality_check(self, step):
         """obj == twin, twin == obj, hash equal -- for every pooled object (C10)."""
+        try:
+            with deadline():
+                return self._twin_equality_check_inner(step)
+        except (OpTimeout, MemoryError, S.Cyclic, RecursionError) as e:
+            return self._viol("C10", "structure-became-unwalkable", step,
+                              f"comparing the pooled objects with fresh twins no longer finishes: {type(e).__name__}")
+
+    def _twin_equality_check_inner(self, step):
         w = self.world
         for name, snap in self.snap.items():
             obj = w.objs[name]
@@ -695,16 +768,26 @@ class Run:
             typ = result_type(step)
             if obj is not None:
                 try:
-                    out = ("obj", typ, describe(obj, typ, w.var_names))
-                except S.WalkerUnavailable:
-                    out = ("obj", typ, (repr(obj),))
-                if typ == E and (expanded_size(obj) > self.scn.get("size_cap", SIZE_CAP)
-                                 or pow_chain(obj) > POW_CHAIN_CAP):
+                    with deadline():
+                        out = ("obj", typ, safe_describe(obj, typ, w.var_names))
+                        oversized = typ == E and (expanded_size(obj) > self.scn.get("size_cap", SIZE_CAP)
+                                                  or pow_chain(obj) > POW_CHAIN_CAP)
+                except (OpTimeout, MemoryError) as e:
+                    out = ("obj", typ, ("pathological-structure", type(e).__name__))
+                    oversized = True
+                if oversized:
                     self.stats["oversized_results_not_pooled"] = self.stats.get("oversized_results_not_pooled", 0) + 1
                 else:
                     name = self._bind(step, obj, typ)
                     if do_snapshot:
-                        self._take_snapshot(name)
+                        try:
+                            self._take_snapshot(name)
+                        except (S.Cyclic, RecursionError) as e:
+                            del w.objs[name]
+                            self._viol("C10", "structure-became-cyclic", step,
+                                       f"returned object cannot be walked / printed: {type(e).__name__}")
+                            if self.stop_at_first:
+                                break
             if step["k"] == "asx" and obj is not None and w.types.get(step["o"]) in (P, D):
                 if not w.switched[step["o"]]:
                     w.switched[step["o"]] = True
@@ -752,6 +835,10 @@ class Run:
                     v = self._replica_check(step, out, mode="snapshot")
             if v is not None and self.stop_at_first:
                 break
+            if out[0] == "exc" and out[1] in ("OpTimeout", "MemoryError"):
+                # the live world may now hold runaway structures: stop this run here
+                self.stats["runs_aborted_after_runaway_op"] = self.stats.get("runs_aborted_after_runaway_op", 0) + 1
+                break
         return self
 
     def _count_evalfailed(self):
@@ -771,10 +858,7 @@ class Run:
             return self._viol(prop, "replica-construction-diverged", step, str(e))
         if ref_obj is not None:
             typ = result_type(step)
-            try:
-                ref_out = ("obj", typ, describe(ref_obj, typ, w.var_names))
-            except S.WalkerUnavailable:
-                ref_out = ("obj", typ, (repr(ref_obj),))
+            ref_out = ("obj", typ, safe_describe(ref_obj, typ, w.var_names))
         self.stats["compared"] += 1
         why = compare_outcomes(live_out, ref_out)
         if why is not None:
